@@ -10,6 +10,8 @@ pub struct PropDef {
     pub assumptions: &'static [&'static str],
     pub run: fn(&mut Worker),
     pub replay: fn(&mut Worker, &str, Value) -> Outcome,
+    /// libFuzzer entry (thorough tier): bytes -> case -> oracle; None = no fuzz target
+    pub fuzz: Option<fn(&[u8]) -> Option<crate::engine::Violation>>,
 }
 
 pub mod c01;
